@@ -7,8 +7,9 @@ import specs
 static = json.load(open(os.path.join(V, "lib", "manifest_static.json")))
 props = [json.loads(l)["id"] for l in open(os.path.join(V, "properties.jsonl"))]
 checks = []
+claimed = set(static.get("claimed", []))
 for pid in props:
-    if pid not in specs.SPECS:
+    if pid not in specs.SPECS or pid not in claimed:
         continue
     s = specs.SPECS[pid]
     checks.append({
@@ -22,9 +23,10 @@ for pid in props:
         "level_note": s["level_note"],
         "technique": s["technique"],
     })
-na = [x for x in static.get("not_applicable", []) if x["property_id"] not in specs.SPECS]
+done = set(c["property_id"] for c in checks)
+na = [x for x in static.get("not_applicable", []) if x["property_id"] not in done]
 for pid in props:
-    if pid not in specs.SPECS and not any(x["property_id"] == pid for x in na):
+    if pid not in done and not any(x["property_id"] == pid for x in na):
         na.append({"property_id": pid, "reason": "check not built yet in this round (planned, see DESIGN.md); not claimed"})
 m = {
     "version": 1,
